@@ -21,6 +21,7 @@ REQUIRED_MONITORS = ("refapply", "choose_side", "schema", "ordering", "decisions
 ASSUMPTIONS = ["vmon/refapply.py encodes docs/source/merging.rst + merge_format.schema.json",
                "'choose side S' = action S where the S-diff is non-empty, else base (what the TypeScript model does)",
                "merges that raise are C03's business and are only counted"]
+OPTIMIZED_SHARDS = (0,)
 NSHARDS = 16
 
 
